@@ -258,6 +258,16 @@ func runStress(enc *json.Encoder, cat *Catalog, rnd *rand.Rand, stack string, im
 			progs[i] = append(pre, progs[i]...)
 		}
 	}
+	bigCommit := !strings.Contains(stack, "http") && rnd.Intn(4) == 0
+	if bigCommit {
+		// a session holding 12 MiB is committed while another goroutine writes one more byte to it: the
+		// commit has to store exactly what it checked
+		for _, op := range []Op{{Op: "PushBlobChunked", R: "r1", U: "u2"}, {Op: "Write", R: "r1", U: "u2", Data: cat.byID["bigb"].Elems}} {
+			h.call(ctx, w, 0, op)
+		}
+		progs[0] = append([]Op{{Op: "Commit", R: "r1", U: "u2", DD: "bigb"}}, progs[0]...)
+		progs[1] = append([]Op{{Op: "Sleep", Off: 200 + rnd.Intn(40000)}, {Op: "Write", R: "r1", U: "u2", Data: []int{1}}}, progs[1]...)
+	}
 	var wg sync.WaitGroup
 	start := make(chan struct{})
 	for i := range progs {
@@ -266,6 +276,10 @@ func runStress(enc *json.Encoder, cat *Catalog, rnd *rand.Rand, stack string, im
 			defer wg.Done()
 			<-start
 			for _, op := range progs[i] {
+				if op.Op == "Sleep" {
+					time.Sleep(time.Duration(op.Off) * time.Microsecond)
+					continue
+				}
 				h.call(ctx, w, i+1, op)
 			}
 		}(i)
@@ -279,6 +293,11 @@ func runStress(enc *json.Encoder, cat *Catalog, rnd *rand.Rand, stack string, im
 		{Op: "ResolveManifest", R: "r1", C: "sub"}, {Op: "UpSize", R: "r1", U: "u1"}, {Op: "ResolveTag", R: "r1", T: "t2"},
 		{Op: "ResolveBlob", R: "r2", C: "b2"}, {Op: "ListRepos"}} {
 		h.call(ctx, w, 0, op)
+	}
+	if bigCommit {
+		for _, op := range []Op{{Op: "GetBlob", R: "r1", C: "bigb"}, {Op: "UpSize", R: "r1", U: "u2"}} {
+			h.call(ctx, w, 0, op)
+		}
 	}
 	h.flush(enc)
 	return nil
